@@ -10,6 +10,7 @@ import (
 	"hash/fnv"
 	"math"
 	"math/big"
+	"regexp"
 	"strings"
 )
 
@@ -149,9 +150,21 @@ func shortHash(s string) string {
 	return fmt.Sprintf("%06x", h.Sum32()&0xffffff)
 }
 
+var reByteRune = regexp.MustCompile(`\b(byte|rune)\b`)
+
+// canonBasic replaces the alias spellings byte/rune by uint8/int32 (they denote the same memory).
+func canonBasic(s string) string {
+	return reByteRune.ReplaceAllStringFunc(s, func(m string) string {
+		if m == "byte" {
+			return "uint8"
+		}
+		return "int32"
+	})
+}
+
 func typeKey(t types.Type) string {
-	full := types.TypeString(t, func(p *types.Package) string { return p.Path() })
-	short := types.TypeString(t, func(p *types.Package) string { return p.Name() })
+	full := canonBasic(types.TypeString(t, func(p *types.Package) string { return p.Path() }))
+	short := canonBasic(types.TypeString(t, func(p *types.Package) string { return p.Name() }))
 	s := sanitize(short)
 	if len(s) > 40 {
 		s = s[:40]
